@@ -19,7 +19,7 @@ class Placement:
         self.reset()
 
     def reset(self):
-        self.placed = None
+        self.placements = []    # one arbitrary placement per call of a placement engine
         self.norms = []     # (vector components, L)
         self.angles = []    # fresh reals in [0, 180] returned by vector_angle_degrees
         self.rots = []      # fresh (c, s) used by rotate_degrees
@@ -47,9 +47,10 @@ class Placement:
         return out
 
     def layout(self, graph):
-        if self.placed is None:
-            self.placed = {n: SymVec([sym_real('pl_%s_x' % n), sym_real('pl_%s_y' % n)]) for n in graph.nodes}
-        return {n: SymVec(list(v.xs)) for n, v in self.placed.items()}
+        k = len(self.placements)
+        placed = {n: SymVec([sym_real('pl%d_%s_x' % (k, n)), sym_real('pl%d_%s_y' % (k, n))]) for n in graph.nodes}
+        self.placements.append(placed)
+        return {n: SymVec(list(v.xs)) for n, v in placed.items()}
 
     def norm(self, v):
         L = sym_real('norm%d' % len(self.norms))
@@ -167,9 +168,10 @@ class C19(core.Prop):
     def witness_constraints(self, shape, inp):
         """a witness has to be a real placement: nodes on a line at integer abscissae, norms tied to their vectors"""
         cs = []
-        for i, (n, v) in enumerate(sorted((PLACE.placed or {}).items(), key=lambda kv: str(kv[0]))):
-            cs.append(symx._real_term(v.xs[0]) == 3 * i + 1)
-            cs.append(symx._real_term(v.xs[1]) == 0)
+        for k, placed in enumerate(PLACE.placements):
+            for i, (n, v) in enumerate(sorted(placed.items(), key=lambda kv: str(kv[0]))):
+                cs.append(symx._real_term(v.xs[0]) == 3 * i + 1 + k)
+                cs.append(symx._real_term(v.xs[1]) == 0)
         for vec, L, dot in PLACE.norms:
             cs.append(L.e * L.e == symx._real_term(dot))
         # angles away from the tolerance boundary of np.isclose; rotations by a rational point of the unit circle
@@ -202,6 +204,9 @@ class C19(core.Prop):
             for p in perms:
                 out.append({'edges': [list(e) for e in edges], 'n': n, 'perm': p, 'stride': 1})
             out.append({'edges': [list(e) for e in edges], 'n': n, 'perm': list(range(n)), 'stride': 5})
+        # history: the same graph object laid out twice with different bond lengths
+        for s_ in list(out)[::(6 if q else 9)]:
+            out.append(dict(s_, calls=2))
         # graphs with cis/trans annotations (check_and_fix_cis_trans rotates subgraphs): item (n1, n2, n3, n4, type) on n1 and the
         # reversed item on n4, as the resolver writes them
         ez_graphs = [
@@ -228,7 +233,13 @@ class C19(core.Prop):
         PLACE.reset()
         b = sym_real('default_bond')
         symx.ENG.add(b.e > 0)
-        return {'bond': b, 'placed': None}
+        inp = {'bond': b, 'placed': None}
+        if shape.get('calls', 1) == 2:
+            # history: the same graph object laid out a second time with another bond length
+            b2 = sym_real('default_bond_2nd_call')
+            symx.ENG.add(b2.e > 0)
+            inp['bond2'] = b2
+        return inp
 
     @staticmethod
     def _graph(shape):
@@ -246,13 +257,19 @@ class C19(core.Prop):
     def execute(self, M, shape, inp):
         g = self._graph(shape)
         if getattr(M, 'is_shadow', False):
+            def plain(res):
+                return {str(n): (list(v.xs) if isinstance(v, SymVec) else [float(x) for x in v]) for n, v in res.items()}
             r = core.guard(M.graph_layout.vespr_layout, g, default_bond=inp['bond'])
-            inp['placed'] = {str(n): list(v.xs) for n, v in (PLACE.placed or {}).items()}
-            inp['angles'] = list(PLACE.angles)
-            inp['rots'] = [list(r) for r in PLACE.rots]
-            # stub contract: the placement has a positive mean bond length
             if r[0] == 'ok':
-                return ('ok', {str(n): (list(v.xs) if isinstance(v, SymVec) else [float(x) for x in v]) for n, v in r[1].items()})
+                r = ('ok', plain(r[1]))     # a snapshot: later calls may not change what this call returned... and we look at it as returned
+            self._marks = [(len(PLACE.norms), len(symx.ENG.memo.get('quotients', [])))]
+            if r[0] == 'ok' and 'bond2' in inp:
+                r2 = core.guard(M.graph_layout.vespr_layout, g, default_bond=inp['bond2'])
+                self._marks.append((len(PLACE.norms), len(symx.ENG.memo.get('quotients', []))))
+                r = ('ok', {'first': r[1], 'second': plain(r2[1])}) if r2[0] == 'ok' else r2
+            inp['placed'] = [{str(n): list(v.xs) for n, v in placed.items()} for placed in PLACE.placements]
+            inp['angles'] = list(PLACE.angles)
+            inp['rots'] = [list(r_) for r_ in PLACE.rots]
             return r
         self._OR = M
         return self._real_run(M, shape, inp, stub_linalg=True)
@@ -262,10 +279,17 @@ class C19(core.Prop):
         concretised stub values in call order (same environment as the symbolic run); without, only the placement
         engines are replaced."""
         g = self._graph(shape)
-        placed = {n: np.array([float(x) for x in (inp['placed'] or {}).get(str(n), [0.0, 0.0])]) for n in g.nodes}
+        placements = [{n: np.array([float(x) for x in pl_.get(str(n), [0.0, 0.0])]) for n in g.nodes} for pl_ in (inp['placed'] or [])]
+        calls = {'p': 0}
+
+        def place(graph, **kw):
+            k = calls['p']
+            calls['p'] += 1
+            src = placements[k] if k < len(placements) else {n: np.array([3.0 * i + 1 + k, 0.0]) for i, n in enumerate(sorted(graph.nodes, key=str))}
+            return {n: src[n].copy() for n in graph.nodes}
         o1, o2 = nx.fruchterman_reingold_layout, nx.kamada_kawai_layout
-        nx.fruchterman_reingold_layout = lambda graph, **kw: {n: v.copy() for n, v in placed.items()}
-        nx.kamada_kawai_layout = lambda graph, **kw: {n: v.copy() for n, v in placed.items()}
+        nx.fruchterman_reingold_layout = place
+        nx.kamada_kawai_layout = place
         U = M.graph_layout_utils
         o3, o4 = U.vector_angle_degrees, U.rotate_degrees
         if stub_linalg:
@@ -283,13 +307,19 @@ class C19(core.Prop):
                 d = np.asarray(position) - origin
                 return np.column_stack((c * d[:, 0] - s_ * d[:, 1], s_ * d[:, 0] + c * d[:, 1])) + origin
             U.vector_angle_degrees, U.rotate_degrees = angle_stub, rot_stub
+
+        def plain(res):
+            return {str(n): [float(x) for x in v] for n, v in res.items()}
         try:
             r = core.guard(M.graph_layout.vespr_layout, g, default_bond=float(inp['bond']))
+            if r[0] == 'ok':
+                r = ('ok', plain(r[1]))
+            if r[0] == 'ok' and 'bond2' in inp:
+                r2 = core.guard(M.graph_layout.vespr_layout, g, default_bond=float(inp['bond2']))
+                r = ('ok', {'first': r[1], 'second': plain(r2[1])}) if r2[0] == 'ok' else r2
         finally:
             nx.fruchterman_reingold_layout, nx.kamada_kawai_layout = o1, o2
             U.vector_angle_degrees, U.rotate_degrees = o3, o4
-        if r[0] == 'ok':
-            return ('ok', {str(n): [float(x) for x in v] for n, v in r[1].items()})
         return r
 
     def oracle(self, shape, inp, obs):
@@ -298,53 +328,64 @@ class C19(core.Prop):
             if obs[1] == 'ZeroDivisionError':
                 raise symx.PathAbort()       # mean bond length 0: outside the stub contract
             return [('no_exception', False)]
-        ret = obs[1]
-        placed = inp['placed']
+        two = 'bond2' in inp
+        rets = [obs[1]['first'], obs[1]['second']] if two else [obs[1]]
+        bonds = [inp['bond'], inp['bond2']] if two else [inp['bond']]
         cl = [('no_exception', True)]
-        cl.append(('one_position_per_node', sorted(ret.keys()) == sorted(str(n) for n in g.nodes)))
-        if sorted(ret.keys()) != sorted(str(n) for n in g.nodes):
-            return cl
-        symbolic = any(symx.is_sym(x) for v in ret.values() for x in v)
-        if symbolic:
-            # the norms requested by the code are those of exactly the graph's edges (the graph as the caller passed it)
-            edges = list(g.edges)
-            ok = len(PLACE.norms) == len(edges)
-            cl.append(('norms_requested_for_exactly_the_edges', ok))
+        for ret in rets:
+            ok = sorted(ret.keys()) == sorted(str(n) for n in g.nodes)
+            cl.append(('one_position_per_node', ok))
             if not ok:
                 return cl
-            total = None
-            for _vec, L, _dot in PLACE.norms:
-                total = L if total is None else total + L
-            mean = SymReal.mk(symx._real_term(total) / len(edges))
-            # the common factor is the quotient the code itself formed: default_bond / mean(requested norms)
+        symbolic = any(symx.is_sym(x) for ret in rets for v in ret.values() for x in v)
+        if symbolic:
+            marks = [(0, 0)] + list(self._marks)
             quots = symx.ENG.memo.get('quotients', [])
-            cl.append(('one_division', len(quots) == 1))
-            if len(quots) != 1:
-                return cl
-            q, num, den = quots[0]
-            F = SymReal(q)
-            cl.append(('factor_is_default_bond_over_mean_bond_length',
-                       band(symx.mkbool(num == symx._real_term(inp['bond'])), symx.mkbool(den == symx._real_term(mean)))))
-            symx.ENG.assume(mean > 0)
-            cl.append(('factor_positive', F > 0))
-            # every returned bond vector is the common factor times the vector whose norm went into the mean (either direction)
-            for (a, b), (vec, _L, _dot) in zip(edges, PLACE.norms):
-                ra, rb = ret[str(a)], ret[str(b)]
-                fwd = band(*[gg.val_eq(ra[c] - rb[c], vec[c] * F) for c in range(2)])
-                bwd = band(*[gg.val_eq(rb[c] - ra[c], vec[c] * F) for c in range(2)])
-                cl.append(('returned_bond_vector_is_factor_times_averaged_vector', bor(fwd, bwd)))
+            edges = list(g.edges)
+            for ci, (ret, bond) in enumerate(zip(rets, bonds)):
+                tag = '' if ci == 0 else '_2nd_call'
+                norms = PLACE.norms[marks[ci][0]:marks[ci + 1][0]]
+                qs = quots[marks[ci][1]:marks[ci + 1][1]]
+                # the norms requested by the code are those of exactly the graph's edges (the graph as the caller passed it)
+                ok = len(norms) == len(edges)
+                cl.append(('norms_requested_for_exactly_the_edges' + tag, ok))
+                if not ok:
+                    return cl
+                total = None
+                for _vec, L, _dot in norms:
+                    total = L if total is None else total + L
+                mean = SymReal.mk(symx._real_term(total) / len(edges))
+                # the common factor is the quotient the code itself formed: default_bond / mean(requested norms)
+                cl.append(('one_division' + tag, len(qs) == 1))
+                if len(qs) != 1:
+                    return cl
+                q, num, den = qs[0]
+                F = SymReal(q)
+                cl.append(('factor_is_default_bond_over_mean_bond_length' + tag,
+                           band(symx.mkbool(num == symx._real_term(bond)), symx.mkbool(den == symx._real_term(mean)))))
+                symx.ENG.assume(mean > 0)
+                cl.append(('factor_positive' + tag, F > 0))
+                # every returned bond vector is the common factor times the vector whose norm went into the mean (either direction)
+                for (a, b), (vec, _L, _dot) in zip(edges, norms):
+                    ra, rb = ret[str(a)], ret[str(b)]
+                    fwd = band(*[gg.val_eq(ra[c] - rb[c], vec[c] * F) for c in range(2)])
+                    bwd = band(*[gg.val_eq(rb[c] - ra[c], vec[c] * F) for c in range(2)])
+                    cl.append(('returned_bond_vector_is_factor_times_averaged_vector' + tag, bor(fwd, bwd)))
             cl.append(('lemmas_hold', all(v == 'unsat' for k, v in self._lemmas.items() if not k.startswith('_'))))
             return cl
-        if not placed and symx.is_sym(inp['bond']):
+        if not inp['placed'] and symx.is_sym(inp['bond']):
             # the code returned positions without consulting the placement: they must already be at the requested scale
-            tot = 0.0
-            for a, b in g.edges:
-                pa, pb = ret[str(a)], ret[str(b)]
-                tot += ((pa[0] - pb[0]) ** 2 + (pa[1] - pb[1]) ** 2) ** 0.5
-            cl.append(('mean_bond_length_is_default_bond', gg.val_eq(inp['bond'], tot / g.number_of_edges())))
+            for ret, bond in zip(rets, bonds):
+                tot = 0.0
+                for a, b in g.edges:
+                    pa, pb = ret[str(a)], ret[str(b)]
+                    tot += ((pa[0] - pb[0]) ** 2 + (pa[1] - pb[1]) ** 2) ** 0.5
+                cl.append(('mean_bond_length_is_default_bond', gg.val_eq(bond, tot / g.number_of_edges())))
             return cl
         # concrete replay: mean bond length of the returned positions over the caller's edges equals default_bond
-        bad = self._concrete_clauses(g, inp, ret)
+        bad = []
+        for ret, bond in zip(rets, bonds):
+            bad += self._concrete_clauses(g, bond, ret)
         if shape.get('ez') and not all(c for _n, c in bad) and getattr(self, '_OR', None) is not None and not getattr(self, '_in_real', False):
             # the angle and rotation kernels were over-approximated: a violation counts only if the unmodified kernels show it too
             self._in_real = True
@@ -354,24 +395,28 @@ class C19(core.Prop):
                 self._in_real = False
             if r2[0] != 'ok':
                 return cl + [('no_exception_with_real_kernels', False)]
-            bad2 = self._concrete_clauses(g, inp, r2[1])
+            rets2 = [r2[1]['first'], r2[1]['second']] if two else [r2[1]]
+            bad2 = []
+            for ret, bond in zip(rets2, bonds):
+                bad2 += self._concrete_clauses(g, bond, ret)
             if all(c for _n, c in bad2):
                 raise symx.Unsupported('violation only under the over-approximated angle/rotation kernels; not shown by the real ones')
         return cl + bad
 
     @staticmethod
-    def _concrete_clauses(g, inp, ret):
+    def _concrete_clauses(g, bond, ret):
         tot = 0.0
         for a, b in g.edges:
             pa, pb = ret[str(a)], ret[str(b)]
             tot += ((pa[0] - pb[0]) ** 2 + (pa[1] - pb[1]) ** 2) ** 0.5
         mean = tot / g.number_of_edges()
-        return [('mean_bond_length_is_default_bond', bool(abs(mean - float(inp['bond'])) <= 1e-6 * max(1.0, float(inp['bond'])))),
+        return [('mean_bond_length_is_default_bond', bool(abs(mean - float(bond)) <= 1e-6 * max(1.0, float(bond)))),
                 ('finite', all(abs(x) < 1e300 for v in ret.values() for x in v))]
 
     def sample(self, shape, cinp):
         return {'edges': shape['edges'], 'perm': shape['perm'], 'stride': shape['stride'], 'ez': shape.get('ez'), 'default_bond': str(cinp['bond']),
-                'placed': {k: [str(x) for x in v] for k, v in (cinp.get('placed') or {}).items()}}
+                'default_bond_2nd_call': str(cinp['bond2']) if 'bond2' in cinp else None,
+                'placements': [{k: [str(x) for x in v] for k, v in pl_.items()} for pl_ in (cinp.get('placed') or [])][-1:]}
 
     MUTANTS = {
         'rotation_cuts_the_callers_graph': {'graph_layout_utils': ("    graph_copy = nx.subgraph(graph, graph.nodes).copy()\n", "    graph_copy = graph\n")},
